@@ -137,6 +137,31 @@ let handle () =
      let es = nentries () in
      let x = nvec () in let y = nvec () in
      emit (sgz (m_matel_h norb es x y))
+   | "HIST" ->
+     let norb = nnat () in
+     let np = nint () in let pool = rep np nvec in
+     let nops = nint () in
+     let ops = rep nops (fun () ->
+       let tag = next () in
+       match tag with
+       | "add" -> let i = nnat () in let j = nnat () in let k = nnat () in HAdd (i, j, k)
+       | "sub" -> let i = nnat () in let j = nnat () in let k = nnat () in HSub (i, j, k)
+       | "axpy" -> let i = nnat () in let a = ngz () in let j = nnat () in HAxpy (i, a, j)
+       | "scale" -> let i = nnat () in let a = ngz () in HScale (i, a)
+       | "set" -> let i = nnat () in let a = nn () in let b = nn () in let c = ngz () in HSet (i, a, b, c)
+       | "copy" -> let i = nnat () in let k = nnat () in HCopy (i, k)
+       | "empty" -> let i = nnat () in let k = nnat () in HEmpty (i, k)
+       | "dot" -> let i = nnat () in let j = nnat () in HDot (i, j)
+       | "vdot" -> let i = nnat () in let j = nnat () in HVdot (i, j)
+       | "norm2" -> let i = nnat () in HNorm2 i
+       | "get" -> let i = nnat () in let a = nn () in let b = nn () in HGet (i, a, b)
+       | "max" -> let i = nnat () in let bs = nbasis () in HMax (i, bs)
+       | _ -> failwith ("hist op " ^ tag)) in
+     let basis = nbasis () in
+     let (obs, finals) = m_hist norb pool ops basis in
+     List.iter (fun o -> match o with Some c -> emit ("o " ^ sgz c) | None -> emit "n") obs;
+     emit "|";
+     List.iter (fun v -> List.iter (fun c -> emit (sgz c)) v) finals
    | "INNER" ->
      let norb = nnat () in let x = nvec () in let y = nvec () in
      emit (sgz (m_inner norb x y))
